@@ -90,7 +90,17 @@ struct Event {
   std::vector<std::vector<int>> vs;  // scan: values in visiting order
 };
 
-static std::atomic<std::uint64_t> g_seq{0};
+// The stamp counter.  External linkage and compiler barriers around every
+// stamp: mutex_db::get is declared [[gnu::pure]], and a "pure" call must not
+// be moved across the stamps by the optimiser.
+std::atomic<std::uint64_t> g_seq{0};
+#define STAMP_BARRIER() asm volatile("" ::: "memory")
+static inline std::uint64_t stamp() {
+  STAMP_BARRIER();
+  const auto s = g_seq.fetch_add(1, std::memory_order_seq_cst);
+  STAMP_BARRIER();
+  return s;
+}
 static std::atomic<int> g_ready{0};
 static std::atomic<bool> g_go{false};
 static std::atomic<int> g_done{0};
@@ -301,9 +311,9 @@ static void worker(DbT* db, Run* run, int t) {
       case INS: {
         const KeyT key = make_key(*run, op.k);
         const unodb::value_view v{reinterpret_cast<const std::byte*>(op.v.data()), op.v.size()};
-        c.seq = g_seq.fetch_add(1);
+        c.seq = stamp();
         const bool res = db->insert(key, v);
-        r.seq = g_seq.fetch_add(1);
+        r.seq = stamp();
         r.res = res;
         log.push_back(std::move(c));
         log.push_back(std::move(r));
@@ -311,27 +321,27 @@ static void worker(DbT* db, Run* run, int t) {
       }
       case REM: {
         const KeyT key = make_key(*run, op.k);
-        c.seq = g_seq.fetch_add(1);
+        c.seq = stamp();
         const bool res = db->remove(key);
-        r.seq = g_seq.fetch_add(1);
+        r.seq = stamp();
         r.res = res;
         log.push_back(std::move(c));
         log.push_back(std::move(r));
         break;
       }
       case EMPTY: {
-        c.seq = g_seq.fetch_add(1);
+        c.seq = stamp();
         const bool res = db->empty();
-        r.seq = g_seq.fetch_add(1);
+        r.seq = stamp();
         r.res = res;
         log.push_back(std::move(c));
         log.push_back(std::move(r));
         break;
       }
       case CLEAR: {
-        c.seq = g_seq.fetch_add(1);
+        c.seq = stamp();
         db->clear();
-        r.seq = g_seq.fetch_add(1);
+        r.seq = stamp();
         r.res = true;
         log.push_back(std::move(c));
         log.push_back(std::move(r));
@@ -345,9 +355,9 @@ static void worker(DbT* db, Run* run, int t) {
           r.vs.push_back(value_bytes(v.get_value()));
           return false;
         };
-        c.seq = g_seq.fetch_add(1);
+        c.seq = stamp();
         db->scan(fn, op.fwd);
-        r.seq = g_seq.fetch_add(1);
+        r.seq = stamp();
         r.res = true;
         log.push_back(std::move(c));
         log.push_back(std::move(r));
@@ -355,10 +365,10 @@ static void worker(DbT* db, Run* run, int t) {
       }
       case GET: {
         const KeyT key = make_key(*run, op.k);
-        c.seq = g_seq.fetch_add(1);
+        c.seq = stamp();
         {
           const auto result = db->get(key);
-          r.seq = g_seq.fetch_add(1);
+          r.seq = stamp();
           r.res = result.first.has_value();
           r.owns = result.second.owns_lock();
           if (r.res) {
@@ -376,14 +386,14 @@ static void worker(DbT* db, Run* run, int t) {
               h.e = E_HOLD;
               h.t = static_cast<std::uint8_t>(t);
               h.val = value_bytes(*result.first);
-              h.seq = g_seq.fetch_add(1);
+              h.seq = stamp();
               log.push_back(std::move(h));
             }
           }
           Event d;
           d.e = E_DROP;
           d.t = static_cast<std::uint8_t>(t);
-          d.seq = g_seq.fetch_add(1);  // before the handle is let go
+          d.seq = stamp();  // before the handle is let go
           log.push_back(std::move(d));
         }  // get_result destroyed here: unlocks iff it owns the mutex
         break;
@@ -505,6 +515,16 @@ int main(int argc, char** argv) {
                        g_ncalls[static_cast<std::size_t>(t)].load());
         }
         std::fprintf(stderr, "\n");
+        // best effort: what the threads had logged when the run got stuck (the
+        // buffers never reallocate; blocked threads do not write)
+        std::vector<const Event*> part;
+        for (int t = 1; t <= run->nt; ++t)
+          for (const auto& e : run->log[static_cast<std::size_t>(t)]) part.push_back(&e);
+        std::sort(part.begin(), part.end(), [](const Event* a, const Event* b) { return a->seq < b->seq; });
+        vh::Json err(stderr);
+        std::fprintf(stderr, "PARTIAL-HISTORY (calls without ret are not shown; %zu events)\n", part.size());
+        for (std::size_t i = part.size() > 80 ? part.size() - 80 : 0; i < part.size(); ++i) write_event(err, *part[i]);
+        std::fflush(stderr);
         std::fflush(f);
         _exit(75);
       }
